@@ -67,6 +67,9 @@ func UnMarshalBlock(bytes []byte) (*Block, error) {
 		return nil, error
 	}
 	block := PbToBlock(b)
+	if block == nil || block.Header == nil {
+		return nil, fmt.Errorf("unmarshal block: invalid header")
+	}
 	return block, nil
 }
 
@@ -78,6 +81,9 @@ func UnMarshalBlockHeader(bytes []byte) (*BlockHeader, error) {
 		return nil, error
 	}
 	header := PbToBlockHeader(b)
+	if header == nil {
+		return nil, fmt.Errorf("unmarshal block header: invalid time fields")
+	}
 	return header, nil
 }
 
@@ -100,6 +106,9 @@ func UnMarshalGroup(b []byte) (*Group, error) {
 		return nil, e
 	}
 	g := PbToGroup(group)
+	if g == nil || g.Header == nil {
+		return nil, fmt.Errorf("unmarshal group: missing header")
+	}
 	return g, nil
 }
 
